@@ -9,7 +9,9 @@ EXPR = {"int": "7", "float": "2.5", "str": "'hi'", "bool": "True", "none": "None
         "listcomp": "[i * 2 for i in xs]", "dictcomp": "{i: i for i in xs}", "ifexp": "n if n > 1 else 0",
         "fstring": "f'{n} items'", "lambda": "(lambda z: z + 1)(n)", "name": "n",
         # the placeholder students leave in unfinished code, and the other literal kinds Python has
-        "ellipsis": "...", "bytes": "b'ab'", "complex": "2j"}
+        "ellipsis": "...", "bytes": "b'ab'", "complex": "2j",
+        # repetition by literal counts, small and absurdly large (nothing is executed: the analysis must not try to)
+        "tuplerep": "(1, n) * 3", "hugerep": "(1, 'a') * 99999999999999999999", "strrep": "'ab' * 1000000000000"}
 STMT = {"assign": "v = {E}\nprint(v)", "augassign": "acc = {E}\nacc += {E}\nprint(acc)", "exprstmt": "print({E})",
         "if": "if {E}:\n    print(1)\nelse:\n    print(2)", "while": "k = 0\nwhile k < 2:\n    v = {E}\n    k += 1\n    print(v)",
         "for": "for i in xs:\n    v = {E}\n    print(v, i)", "defcall": "def f(a):\n    return {E}\nprint(f(1))",
